@@ -54,12 +54,15 @@ def closed(g):
     if any(id(v) not in own_a for v in g._id_to_attacker.values()): probs.append('the attacker index of the copy points outside the copy')
     return probs
 
-def run_one(ops, mo_steps, res):
+def run_one(ops, mo_steps, res, tap=None):
+    """`tap(phase, i, op, im, st)` (third column, `GenDocs`): called before / after every step and at the end"""
     im = Impl()
     frozen = None
     for i, op in enumerate(ops):
+        if tap: tap('before', i, op, im, None)
         st = im.step(op)
         res.bump(op['k'])
+        if tap: tap('after', i, op, im, st)
         if 'case' in op: res.bump(op['case'] + (' -> ' + st['err'] if st['err'] else ' -> accepted'))
         probs = rejected_clean(st)
         if op['k'] == 'deepcopy':
@@ -84,7 +87,36 @@ def run_one(ops, mo_steps, res):
             b = [mo['err'], canon_out(op, mo['out']), canon_obs(mo['obs']), canon_obs(mo['other']) if mo['other'] else None]
             if a != b:
                 return ('diverge', i, {'impl': a, 'model': b})
+    if tap: tap('end', len(ops), None, im, None)
     return None
+
+# ---- third column (genexec2): the DOCUMENTS of the generated `_to_dict` for the copy and the original ----------------
+def doc_positions(ops):
+    """where the documents are compared: right after the deep copy (= before the next step) and at the end of the history
+    (after the mutations of the copy / the original); both times for the current graph AND the other side of the copy"""
+    return [i + 1 for i, o in enumerate(ops) if o['k'] == 'deepcopy'] + [len(ops)]
+
+class GenDocs:
+    """for ONE history: the dictionaries of the real `AttackGraph._to_dict()` of both graphs against the documents the
+    generated `graph__to_dict` returned for the heap replayed with the generated `graph___deepcopy__` (op `gen_ag_todict`)"""
+    def __init__(self, gen_docs, res, count=True):
+        self.gen = {d['pos']: d for d in gen_docs}; self.res = res; self.count = count
+        self.bad = []; self.ttc_touched = False
+    def __call__(self, phase, i, op, im, st):
+        from .. import genexec
+        if phase == 'after':
+            if op['k'] == 'touch' and op['field'] == 'ttc': self.ttc_touched = True
+            return
+        g = self.gen.get(i)
+        if g is None: return
+        for side, graph, gdoc in (('current graph', im.g, g['doc']), ('other side of the copy', im.other, g['other'])):
+            if (graph is None) != (gdoc is None):
+                self.bad.append((i, side, 'one side has no second graph', None, gdoc)); continue
+            if graph is None: continue
+            real = graph._to_dict()
+            d = genexec.ag_doc_compare(real, gdoc, self.res if self.count else None, self.ttc_touched)
+            if self.count: self.res.bump('generated_code_documents_compared')
+            if d: self.bad.append((i, side, d, real, gdoc))
 
 # ---- second scenario family (real objects only): states that the operation histories above do not reach ----------
 def gen_extra(rnd):
@@ -172,7 +204,11 @@ def run(seed, tier, lean) -> Result:
                       'Lean store model; non-trivial = the graph has an attacker with a reached step and a node with non-empty tags/extras/ttc when copied')
     n = 300 if tier == 'quick' else 1800
     hists = [gen_history(random.Random(rnd.getrandbits(48))) for _ in range(n)]
-    model = run_driver([{'op': 'ag_hist', 'case': i, 'ops': h} for i, h in enumerate(hists)]) if lean['build_ok'] else None
+    from .. import genexec
+    model = gen = None
+    if lean['build_ok']:
+        model, gen = genexec.run_both([{'op': 'ag_hist', 'case': i, 'ops': h} for i, h in enumerate(hists)], 'gen_ag_todict',
+                                      rewrite=lambda q: dict(q, pos=doc_positions(q['ops'])))
     for hi, ops in enumerate(hists):
         res.evaluations += 1
         mo = None
@@ -181,7 +217,16 @@ def run(seed, tier, lean) -> Result:
                 res.violations.append(Violation(what='driver rejected a history: ' + model[hi]['error'], fingerprint='C14:driver-error',
                                                 replay={'ops': ops}, no_failing_input=True)); continue
             mo = model[hi]['model']
-        bad = run_one(ops, mo, res)
+        tap = None
+        if gen is not None and gen[hi] is not None:
+            if 'error' in gen[hi]: res.violations.append(genexec.driver_error('C14', gen[hi]['error'], {'ops': ops}))
+            else: tap = GenDocs(gen[hi]['model'], res)
+        bad = run_one(ops, mo, res, tap)
+        if tap is not None and not bad:
+            # third column: hand model = implementation and the oracle passes on this history
+            for pos, side, what, real, gdoc in tap.bad[:1]:
+                res.violations.append(genexec.divergence('C14', '_to_dict', f'on the document of the {side} before step {pos} ({what})',
+                    {'ops': ops[:pos], 'impl_doc': genexec.ag_doc_encode(real) if real is not None else None, 'generated_doc': gdoc}))
         k = next(i for i, o in enumerate(ops) if o['k'] == 'deepcopy')
         if any(o['k'] == 'add_attacker' and o['reached'] for o in ops[:k]) and any(o['k'] == 'add_node' and (o.get('tags') or o.get('extras')) for o in ops[:k]):
             res.nontrivial.add(canon_hash(ops))
@@ -203,6 +248,52 @@ def run(seed, tier, lean) -> Result:
             res.violations.append(Violation(what=bad, fingerprint='C14:extra:' + bad.split(' (')[0][:60], replay={'extra_scenario': sc, 'problem': bad}))
             break
     return res
+
+def genexec_measure(seed: int, n: int) -> dict:
+    """seeded experiment (tools/genexec_seeded.py), DOCUMENT family only (the history family is measured by the tool
+    itself): n histories of the quick check on the (mutated) implementation, the hand model (`ag_hist`, step by step up to
+    the first disagreement) and the (regenerated) code: the documents of `_to_dict` of the copy and the original right
+    after the deep copy and at the end.  A case = one history."""
+    from .. import genexec
+    rnd = random.Random(seed)
+    st = {'cases': 0, 'impl_ne_hand': 0, 'gen_follows_impl': 0, 'gen_ne_impl': 0, 'impl_crash': 0, 'examples': []}
+    def note(kind, info):
+        if len([e for e in st['examples'] if e[0] == kind]) < 2: st['examples'].append([kind, info])
+    hists = [gen_history(random.Random(rnd.getrandbits(48))) for _ in range(n)]
+    hand, gen = genexec.run_both([{'op': 'ag_hist', 'case': i, 'ops': h} for i, h in enumerate(hists)], 'gen_ag_todict',
+                                 rewrite=lambda q: dict(q, pos=doc_positions(q['ops'])))
+    res = Result(); differ_docs = 0
+    for hi, ops in enumerate(hists):
+        st['cases'] += 1
+        if 'error' in hand[hi] or 'error' in gen[hi]:
+            note('driver-error', [hand[hi].get('error'), gen[hi].get('error')]); continue
+        tap = GenDocs(gen[hi]['model'], res)
+        im = Impl(); first = None
+        for i, op in enumerate(ops):
+            tap('before', i, op, im, None)
+            try: s_ = im.step(op)
+            except Exception as e:
+                st['impl_crash'] += 1; note('impl-crash', f'{type(e).__name__} at step {i} ({op["k"]}): {str(e)[:80]}'); first = -1; break
+            mo = hand[hi]['model'][i]
+            tap('after', i, op, im, s_)
+            a = [s_['err'], canon_out(op, s_['out']), canon_obs(s_['obs']), canon_obs(s_['other']) if s_['other'] else None]
+            b = [mo['err'], canon_out(op, mo['out']), canon_obs(mo['obs']), canon_obs(mo['other']) if mo['other'] else None]
+            if a != b:
+                first = i
+                if op['k'] == 'deepcopy': tap('before', i + 1, None, im, None)     # the documents of the copy that differs
+                break
+        else:
+            tap('end', len(ops), None, im, None)
+        differ_docs += len(tap.bad)
+        if first is not None and first >= 0:
+            st['impl_ne_hand'] += 1
+            if not tap.bad:
+                st['gen_follows_impl'] += 1; note('gen=impl!=hand', {'history': hi, 'step': first, 'op': ops[first]})
+        if tap.bad:
+            st['gen_ne_impl'] += 1; note('gen!=impl', {'ops': ops[:tap.bad[0][0]], 'side': tap.bad[0][1], 'what': tap.bad[0][2]})
+    st['document_family'] = dict({k: st[k] for k in ('cases', 'impl_ne_hand', 'gen_follows_impl', 'gen_ne_impl', 'impl_crash')},
+                                 documents_compared=res.distribution.get('generated_code_documents_compared', 0), documents_differ=differ_docs)
+    return st
 
 def replay(path):
     r = json.load(open(path))
